@@ -16,7 +16,7 @@ func init() {
 		"(R3) FixLogLeaf: every error of the chain lookup, of its ASN.1 decoding (incl. trailing bytes) and of re-encoding is returned; leaf.ExtraData is stored only on all-success paths with the re-encoded full structure; a hash-form layout with a non-empty hash always goes through the lookup (the lookup is skipped only for an empty hash); full-chain layouts return nil without touching the leaf; no layout matched ⇒ error; each of the four layouts is taken only on an exact match (extra data that fails to decode as it, or decodes with bytes left over, reaches the next probe without any lookup, decoding, re-encoding, store through the leaf or success) every layout is probed before any verdict when the others do not match, and a rewrite is final (no layout is probed on the re-inflated bytes, nil is returned); extra data that is exactly a hash layout is never answered with success as it is (from the match no return that may yield nil is reached before leaf.ExtraData was replaced); read per hypothetical length of the embedded hash, an empty hash needs no lookup and a non-empty hash of any length reaches the rewrite only through the lookup, and — when the writer embeds the empty hash for a path without issuers — an empty hash is expanded to the entry with an empty chain (with the re-encoding succeeding every return yields nil and the leaf is rewritten) — all of these decided on the value each return yields on the path that leads to it, whatever expression or local carries the verdict; "+
 		"(R4) writer and reader use the identical Go types: every leaf the writer builds — at however many places — embeds (raw[0], h) with h the hash add() returned for asn1.Marshal(raw[1:]) of []ct.ASN1Cert, or a hash of length 0 only for a path without issuers (decided per path length the function's length tests can tell apart, on the value the hash argument has on the paths that length allows), what it returns is a leaf so built, and every error on the way is its verdict; the reader decodes into []ct.ASN1Cert and re-inflates PrecertChainEntry{PreCertificate ← stored, CertificateChain ← chain} / CertificateChain{Entries ← chain} — the types the in-backend mode writes; "+
 		"(R5) add: key = SHA-256(chain), a storage error is returned, the cache is filled only after the storage write succeeded, a cache hit short-cuts only when err == nil and the entry is non-nil; getByHash: cache error or hit is returned as is, storage error is returned, the cache is filled only after a successful storage read — a local that function literals only read (the chain variable captured by the detached fill, assigned by the cache read and again by the storage read) is read where it stands: as the one assignment that reaches that read on every path, for a literal the one that reaches its making and is followed by none; "+
-		"(R6) a chain read from storage is compared with its key (SHA-256) before either use: before it is served and before it is handed to the cache (cache hits are served unchecked); (R7) the four extra-data layouts have the prefix widths FixLogLeaf's discrimination assumes; "+
+		"(R6) a chain read from storage is compared with its key (SHA-256) before either use: before it is served and before it is handed to the cache (cache hits are served unchecked); (R7) the four extra-data layouts have the prefix widths and byte bounds FixLogLeaf's discrimination assumes (the tags compared as the codec parses them: order and spelling of the six documented clauses do not matter, a clause with another key counts as absent only if C09.R3 decides that it is an allocation hint); "+
 		"(R9) the cache only ever receives rows of the storage (what lets add skip the storage write on a cache hit): every call of the cache's Set anywhere in the module, followed through goroutines, helpers and wrappers to where its (key, chain) are produced, passes the chain read from storage under that key (and only once its SHA-256 has been compared with that key) or the pair just written to storage, only after that storage call succeeded; Set is never taken as a function value; the LRU behind the cache is inserted into only by Set with Set's own pair. "+
 		"NOT covered: that a hash of length 0 cannot also be the SHA-256 of a stored chain is taken from SHA-256's output size, not decided; path lengths are told apart only by comparisons of len(raw) / len(raw[1:]) / len(chain) with constants (any other test leaves the writer's fact undecided = failed); mutual unambiguity of the four layouts for all byte strings, cache expiry/eviction timing, SQL storage behaviour, the detached cache.Set goroutine's schedule.",
 		runC14)
@@ -381,18 +381,18 @@ func runC14(r *Run) {
 		{"ct.ASN1Cert", "Data", `tls:"minlen:1,maxlen:16777215"`},
 	} {
 		nt := r.P.LookupType(w.typ)
-		ok, got := false, "?"
+		ok, got, note := false, "?", ""
 		if nt != nil {
 			if st, isS := nt.Underlying().(*types.Struct); isS {
 				for i := 0; i < st.NumFields(); i++ {
 					if st.Field(i).Name() == w.field {
 						got = st.Tag(i)
-						ok = got == w.tag
+						ok, note = c14SameWireTag(r, got, w.tag)
 					}
 				}
 			}
 		}
-		r.Check("layout:"+w.typ+"."+w.field, ok, "-", fmt.Sprintf("tag %q (expected %q)", got, w.tag))
+		r.Check("layout:"+w.typ+"."+w.field, ok, "-", fmt.Sprintf("tag %q (expected %q)%s", got, w.tag, note))
 	}
 	c14Debug(r)
 }
